@@ -20,8 +20,8 @@ CHANNELS = ["A", "B"]
 CHANSETS = [["A"], ["B"], ["A", "B"], []]  # [] = any channel
 
 # operation kinds
-ADD, PULL, RUN, FINISH, KILL, TICK, DISCONNECT, WAIT, READD, SETINFO, RESTORE, FINISH_ID, WATCHDOG = range(13)
-OPNAMES = ["add", "pull", "run", "finish", "kill", "tick", "disconnect", "wait", "readd", "setinfo", "restore", "finish-id", "watchdog"]
+ADD, PULL, RUN, FINISH, KILL, TICK, DISCONNECT, WAIT, READD, SETINFO, RESTORE, FINISH_ID, WATCHDOG, DROP = range(14)
+OPNAMES = ["add", "pull", "run", "finish", "kill", "tick", "disconnect", "wait", "readd", "setinfo", "restore", "finish-id", "watchdog", "drop"]
 FINISH_ERRORS = [None, "x", ""]
 
 
@@ -134,6 +134,7 @@ class RJ:
         self.cause = "added"  # last transition, for the violation signature
         self.dropped = False  # removed by the watchdog after its time-to-live (finished jobs only)
         self.superseded = False  # killed and re-added: a newer enqueueing owns the id now
+        self.drop_marked = False  # qdrop: the job is forgotten once it has finished AND a client has waited for it
 
     def key(self):
         return (self.prio, self.serial)
@@ -322,6 +323,8 @@ class Sim:
                     self.fail("C17", "waiter-not-released", job=rj.id, after=after)
                 elif rj.state != "done":
                     self.fail("C17", "waiter-released-early", job=rj.id, after=after)
+                elif rj.drop_marked and self.ref.get(rj.id) is rj:
+                    rj.dropped = True  # the waiter has seen the outcome of a job marked by qdrop: the server forgets it
 
     watchdog_ran = False
 
@@ -552,12 +555,25 @@ class Sim:
         if out[0] == "done":
             if rj.state != "done":
                 self.fail("C17", "waiter-released-early", job=jid, after="wait")
+            elif rj.drop_marked:
+                rj.dropped = True  # finished, marked by qdrop and now waited for: the server forgets it
         else:
             if rj.state == "done":
                 self.fail("C18" if self.restored else "C17", "wait-on-finished-job-blocks", job=jid)
             g._wait_ev = out[1]
             self.waits.append((g, rj))
         self.check_outcomes("wait")
+
+    def op_drop(self, which):
+        """qdrop: mark a job to be forgotten after it has finished and been waited for; until then it is a job like any other"""
+        assume(0 <= which < len(self.order))
+        jid = self.order[which]
+        rj = self.ref[jid]
+        assume(not rj.dropped)
+        self.history.append(["drop", jid])
+        self.client.rpc_qdrop([jid])
+        rj.drop_marked = True
+        self.check_outcomes("drop")
 
     def op_readd(self, which):
         """add under an id that already exists: the existing job is returned, unless it was killed (then it is enqueued anew)"""
@@ -639,6 +655,8 @@ class Sim:
             self.op_finish(a, b, c, by_id=True)
         elif op == WATCHDOG:
             self.op_watchdog()
+        elif op == DROP:
+            self.op_drop(a)
         else:
             assume(False)
 
